@@ -95,7 +95,15 @@ def _probe(args):
             m8 = st.random_mps(uni8.model, 4, 6, (seed, "c04-var8", k))
             m8.ensure_left_canonical()
             exact = uni8.dense_op["H"] @ st.dense(m8)
-            g = st.random_mps(uni8.model, 4, 1, (seed, "c04-var8-guess", k))
+            g = None
+            for mg in (1, 2, 3):
+                try:
+                    g = st.random_mps(uni8.model, 4, mg, (seed, "c04-var8-guess", k, mg))
+                    break
+                except FloatingPointError:
+                    continue          # Mps.random cannot populate the sector at this bond dimension
+            if g is None:
+                return out
             g.compress_config = CompressConfig(CompressCriteria.fixed, max_bonddim=32)
             g.compress_config.vmethod = "2site"
             g.compress_config.vprocedure = [[32, 0.0]] * 16
